@@ -662,9 +662,11 @@ func (txn *KVTxn) InitPipelinedMemDB() error {
 				return errors.New("invalid iterator")
 			}
 			endKey := it.Key()
-			if len(txn.committer.pipelinedCommitInfo.pipelinedEnd) == 0 || bytes.Compare(txn.committer.pipelinedCommitInfo.pipelinedEnd, endKey) < 0 {
-				txn.committer.pipelinedCommitInfo.pipelinedEnd = make([]byte, len(endKey))
-				copy(txn.committer.pipelinedCommitInfo.pipelinedEnd, endKey)
+			// pipelinedEnd is the exclusive end of the range resolved by resolveFlushedLocks: it has to lie
+			// behind the largest flushed key, otherwise that key is left out of the range (a single flushed key
+			// gives an empty range, and a region that starts with the largest flushed key is never visited).
+			if len(txn.committer.pipelinedCommitInfo.pipelinedEnd) == 0 || bytes.Compare(txn.committer.pipelinedCommitInfo.pipelinedEnd, endKey) <= 0 {
+				txn.committer.pipelinedCommitInfo.pipelinedEnd = tikv.NextKey(endKey)
 			}
 			it.Close()
 		}
